@@ -31,7 +31,12 @@ def concStep (_ : Unit) (w : List String) : Unit × String :=
     let kv := kvOf rest
     match kvNat? kv "senders", kvNat? kv "per", kvNat? kv "tr", kvNat? kv "persist" with
     | some s, some p, some tr, some persist =>
-      let firstTime := 1 + s * p + tr + 1
+      let ini := (kvNat? kv "init").getD 0
+      let reset := (kvNat? kv "reset").getD 0
+      -- an initiator round has one more TestRequest (the peer's "are you logged on" probe); when the peer's Logon
+      -- reply resets an initiator (reset=1), the initiator's own Logon belongs to the previous epoch
+      let logon := if ini == 1 && reset == 1 then 0 else 1
+      let firstTime := logon + s * p + tr + ini + 1
       let sender := firstTime + 1
       let stored := if persist == 1 then s!"1-{firstTime}" else "-"
       ((), s!"ok {sender} {stored} {s * p}")
